@@ -50,3 +50,9 @@ claim("C07", "Bounded stand-in only so far (labelled bounded): exhaustive enumer
       level="exploration", note="Bounded run-time contract check, not a proof.")
 claim("C10", "Bounded stand-in only so far (labelled bounded): process_logits / top-k / top-p / greedy / sampling against a float64 reference over the exhaustive value grid and random families stated in the evidence.",
       level="exploration", note="Bounded run-time contract check, not a proof.")
+claim("C11", "Bounded stand-in only so far (labelled bounded): for 24 policy/environment pairs with random weights the returned log-likelihood is recomputed step by step with an own rollout and the evaluate round trip is replayed.",
+      level="exploration", note="Bounded run-time contract check, not a proof.")
+claim("C13", "Bounded stand-in only so far (labelled bounded): beam search outputs re-scored by an evaluate pass and compared with an own beam search on tiny instances, widths 2..N.",
+      level="exploration", note="Bounded run-time contract check, not a proof.")
+claim("C14", "Bounded stand-in only so far (labelled bounded): every instance decoded alone, in reversed, sub-sampled and duplicated batches for 24 policy/environment pairs with random weights.",
+      level="exploration", note="Bounded run-time contract check, not a proof.")
